@@ -257,7 +257,11 @@ def r4_no_unlisted_memo(rep, ctx):
             if w[0] not in ("UnitDatabase", "Quantity") or is_registry_atom(w):
                 continue
             n += 1
-            allowed = KNOWN_WRITERS.get((w[0], w[1]), {})
+            allowed = dict(KNOWN_WRITERS.get((w[0], w[1]), {}))
+            if (w[0], w[1]) == ("UnitDatabase", "quantities_cache") and fn.name not in allowed:
+                from . import c07
+                if any(f is fn for f in c07.interning_functions(m)):
+                    allowed[fn.name] = "the intern table, written by a phase of ObtainQuantity that is called directly (the interning rules of C07.R5 are applied to it: R5 here)"
             key = "%s:%s.%s" % (q.split(".", 2)[-1], w[0], w[1])
             rep.check(fn.name in allowed, "C15.R4", key, "%s writes %s.%s: %s" % (fn.name, w[0], w[1], allowed.get(fn.name, "")),
                       "%s writes %s.%s, a cache that is not among the known memo tables: nothing establishes that it is keyed by everything its content depends on, nor that registrations invalidate it "
